@@ -44,7 +44,8 @@ def plan(tier, prop):
                 "sv_overrides dicts re-used by the caller, images of 512 .. "
                 "32764 bytes or the bundled one; non-trivial = at least one "
                 "boot completed; distinct = distinct abstract event traces",
-        "expected_probes": ["bundled_image", "drawn_image", "preset",
+        "expected_probes": ["partial_preset",
+                            "bundled_image", "drawn_image", "preset",
                             "explicit_dict", "dict_reused", "no_options",
                             "mc_boot", "mc_boot_already_booted",
                             "mc_boot_failed", "max_size_image",
